@@ -218,13 +218,13 @@ def doResolve (args : List String) : String :=
     | _, _ => "bad-op"
   | _ => "bad-op"
 
-def doPatch (args : List String) : String :=
+def doPatchQ (qn : QName) (args : List String) : String :=
   match args with
   | [mode, fresh, ts, ss] =>
     match fresh.toNat?, decTree ts, decScript ss with
     | some f, some t, some sc =>
-      let r := if mode == "strict" then runStrict qnPlain { tree := t, next := f } sc
-               else runShipped qnPlain { tree := t, next := f } sc
+      let r := if mode == "strict" then runStrict qn { tree := t, next := f } sc
+               else runShipped qn { tree := t, next := f } sc
       match r with
       | .ok s => "ok " ++ encTree s.tree
       | .error (k, e) => s!"err {k} {showErr e}"
@@ -233,27 +233,27 @@ def doPatch (args : List String) : String :=
 
 /-- Strict replay with per-action flags: `1` the id-tree changed, `0` it did not,
 `X` a node created by the script is deleted. -/
-def replayFlags (fresh : Nat) : PState → List Action → Nat → String → Except (Nat × Err) (String × PState)
+def replayFlags (qn : QName) (fresh : Nat) : PState → List Action → Nat → String → Except (Nat × Err) (String × PState)
   | s, [], _, acc => .ok (acc, s)
   | s, a :: rest, k, acc =>
-    match applyStrict qnPlain s a with
+    match applyStrict qn s a with
     | .error e => .error (k, e)
     | .ok s' =>
       let created : Bool := match a with
-        | .deleteNode n => match uniqueHit qnPlain s.tree n with
+        | .deleteNode n => match uniqueHit qn s.tree n with
           | .ok x => decide (x.id ≥ fresh)
           | _ => false
         | _ => false
       let flag := if created then "X" else if Tree.beq s.tree s'.tree then "0"
         else if Tree.beqVal s.tree s'.tree then "v" else "1"
-      replayFlags fresh s' rest (k + 1) (acc ++ flag)
+      replayFlags qn fresh s' rest (k + 1) (acc ++ flag)
 
-def doReplay (args : List String) : String :=
+def doReplayQ (qn : QName) (args : List String) : String :=
   match args with
   | [fresh, ts, ss] =>
     match fresh.toNat?, decTree ts, decScript ss with
     | some f, some t, some sc =>
-      match replayFlags f { tree := t, next := f } sc 0 "" with
+      match replayFlags qn f { tree := t, next := f } sc 0 "" with
       | .ok (flags, s) => "ok " ++ flags ++ " | " ++ encTree s.tree
       | .error (k, e) => s!"err {k} {showErr e}"
     | _, _, _ => "bad-op"
@@ -267,24 +267,24 @@ def doMatch (args : List String) : String :=
     | _, _, _ => "bad-op"
   | _ => "bad-op"
 
-def doScript (args : List String) : String :=
+def doScriptQ (qn : QName) (args : List String) : String :=
   match args with
   | [cs, ls, rs, ms, fresh] =>
     match decCfg cs, decTree ls, decTree rs, fresh.toNat? with
     | some cfg, some L, some R, some f =>
-      match scriptGen qnPlain cfg L R (decMatches ms) f with
+      match scriptGen qn cfg L R (decMatches ms) f with
       | .ok (sc, t) => "ok " ++ encScript sc ++ " | " ++ encTree t
       | .error e => "error " ++ e
     | _, _, _, _ => "bad-op"
   | _ => "bad-op"
 
-def doDiff (args : List String) : String :=
+def doDiffQ (qn : QName) (args : List String) : String :=
   match args with
   | [cs, ls, rs, sims, fresh] =>
     match decCfg cs, decTree ls, decTree rs, fresh.toNat? with
     | some cfg, some L, some R, some f =>
       let M := matchNodes cfg (decSim sims) L R
-      match scriptGen qnPlain cfg L R M f with
+      match scriptGen qn cfg L R M f with
       | .ok (sc, t) => "ok " ++ showPairs M ":" ++ " | " ++ encScript sc ++ " | " ++ encTree t
       | .error e => "ok " ++ showPairs M ":" ++ " | error " ++ e
     | _, _, _, _ => "bad-op"
@@ -326,12 +326,12 @@ def showOErr : OErr → String
   | .patch e => "patch:" ++ showErr e | .indexError => "indexError" | .keyError => "keyError"
   | .typeError => "typeError" | .noPath => "noPath"
 
-def doOld (args : List String) : String :=
+def doOldQ (qn : QName) (args : List String) : String :=
   match args with
   | [fresh, ts, ss] =>
     match fresh.toNat?, decTree ts, decScript ss with
     | some f, some t, some sc =>
-      match oldFormat qnPlain { tree := t, next := f } sc with
+      match oldFormat qn { tree := t, next := f } sc with
       | .ok txt => "ok " ++ encStr (some txt)
       | .error e => "err " ++ showOErr e
     | _, _, _ => "bad-op"
@@ -488,8 +488,35 @@ def doOrders (args : List String) : String :=
     | none => "bad-op"
   | _ => "bad-op"
 
+def doPatch := doPatchQ qnPlain
+def doOld := doOldQ qnPlain
+def doReplay := doReplayQ qnPlain
+def doScript := doScriptQ qnPlain
+def doDiff := doDiffQ qnPlain
+
+/-- `uri=prefix|uri=prefix`: the step name libxml2 writes for a Clark-notation tag -/
+def mkQn (spec : String) : QName :=
+  let pairs : List (Str × Str) := (spec.splitOn "|").filterMap fun kv =>
+    match kv.splitOn "=" with
+    | [u, p] => some (u.toList, p.toList)
+    | _ => none
+  fun tag =>
+    match tag with
+    | '{' :: rest =>
+      let uri := rest.takeWhile (· != '}')
+      let loc := (rest.dropWhile (· != '}')).drop 1
+      match pairs.find? (fun kv => kv.1 == uri) with
+      | some kv => some (kv.2 ++ [':'] ++ loc)
+      | none => none
+    | _ => some tag
+
 def handle (line : String) : String :=
   match line.splitOn "\t" with
+  | "ns" :: spec :: "old" :: args => doOldQ (mkQn spec) args
+  | "ns" :: spec :: "patch" :: args => doPatchQ (mkQn spec) args
+  | "ns" :: spec :: "replay" :: args => doReplayQ (mkQn spec) args
+  | "ns" :: spec :: "script" :: args => doScriptQ (mkQn spec) args
+  | "ns" :: spec :: "diff" :: args => doDiffQ (mkQn spec) args
   | "lcs" :: args => doLcs args
   | "getpath" :: args => doGetpath args
   | "resolve" :: args => doResolve args
